@@ -955,3 +955,187 @@ theorem posFree_hideIf_of_posFree {p : Message → Bool} {m : Message} (h : posF
   · exact h
 
 end Fit.Activity
+
+namespace Fit.Activity
+open Fit.Value Fit.Msg Fit.Gen Fit.Gen.Tool
+
+/-! ### combiner: order of the body, the stable sort -/
+
+def blankF (f : Field) : Field := if hasAccFlag f then { f with value := .invalid } else f
+
+theorem blankAcc_fields (m : Message) : blankAcc m = { m with fields := m.fields.map blankF } := rfl
+
+theorem accumulable_flag {f : Field} (h : accumulable f = true) : hasAccFlag f = true := by
+  unfold accumulable at h; unfold hasAccFlag
+  cases hb : f.base with
+  | none => simp [hb] at h
+  | some b => simp only [hb, Bool.and_eq_true] at h; exact h.1
+
+theorem blankF_set {f : Field} (v : Value) (h : hasAccFlag f = true) : blankF { f with value := v } = blankF f := by
+  have h' : hasAccFlag { f with value := v } = true := h
+  simp [blankF, h, h']
+
+theorem accFields_blank (mn : Nat) : ∀ (fs : List Field) (a : Acc) (a' : Acc) (fs' : List Field),
+    accFields mn a fs = some (a', fs') → fs'.map blankF = fs.map blankF
+  | [], a, a', fs', h => by simp only [accFields] at h; cases h; rfl
+  | f :: fs, a, a', fs', h => by
+    simp only [accFields] at h
+    split at h
+    · rename_i hacc
+      split at h
+      · rename_i a1 v hv
+        split at h
+        · rename_i a2 fs2 h2
+          cases h
+          simp only [List.map_cons, blankF_set v (accumulable_flag hacc), accFields_blank mn fs a1 a' fs2 h2]
+        · cases h
+      · cases h
+    · split at h
+      · rename_i a2 fs2 h2
+        cases h
+        simp only [List.map_cons, accFields_blank mn fs a a' fs2 h2]
+      · cases h
+
+def notFid (m : Message) : Bool := !(m.num == mnFileId || m.num == mnFileCreator)
+
+theorem accMesgs_blank : ∀ (ms : List Message) (a a' : Acc) (out : List Message),
+    accMesgs a ms = some (a', out) → out.map blankAcc = (ms.filter notFid).map blankAcc
+  | [], a, a', out, h => by simp only [accMesgs] at h; cases h; rfl
+  | m :: ms, a, a', out, h => by
+    simp only [accMesgs] at h
+    split at h
+    · rename_i hf
+      have : notFid m = false := by simp [notFid, hf]
+      simp only [List.filter_cons, this, Bool.false_eq_true, ↓reduceIte]
+      exact accMesgs_blank ms a a' out h
+    · rename_i hf
+      have hn : notFid m = true := by simp only [notFid]; simpa using hf
+      split at h
+      · rename_i a1 fs1 h1
+        split at h
+        · rename_i a2 out2 h2
+          cases h
+          simp only [List.filter_cons, hn, ↓reduceIte, List.map_cons, accMesgs_blank ms a1 a' out2 h2]
+          congr 1
+          simp only [blankAcc_fields, accFields_blank m.num m.fields a a1 fs1 h1]
+        · cases h
+      · cases h
+
+theorem combineBody_blank : ∀ (fs : List (List Message)) (a : Acc) (tail : List Message),
+    combineBody a fs = some tail → tail.map blankAcc = (fs.flatMap (·.filter notFid)).map blankAcc
+  | [], a, tail, h => by simp only [combineBody] at h; cases h; rfl
+  | f :: fs, a, tail, h => by
+    simp only [combineBody] at h
+    split at h
+    · rename_i a1 out h1
+      split at h
+      · rename_i rest h2
+        cases h
+        simp only [List.flatMap_cons, List.map_append, accMesgs_blank f a a1 out h1, combineBody_blank fs _ rest h2]
+      · cases h
+    · cases h
+
+theorem filterBody_eq (ms : List Message) : filterBody ms = ms.filter (fun m => !isTrailerNum m.num) := by
+  simp [filterBody, compact_stateless]
+
+theorem flat_filter : ∀ rest : List (List Message),
+    (rest.map filterBody).flatMap (·.filter notFid) =
+      (rest.map fun f => f.filter fun m => !isTrailerNum m.num && !(m.num == mnFileId || m.num == mnFileCreator)).flatten
+  | [] => rfl
+  | r :: rs => by
+    simp only [List.map_cons, List.flatMap_cons, List.flatten_cons, filterBody_eq, List.filter_filter, flat_filter rs]
+    congr 1
+    apply List.filter_congr
+    intro x _
+    simp [notFid, Bool.and_comm]
+
+/-- the body of the combined activity is, up to the values of accumulable fields, the messages of the inputs in
+creation-time order -/
+theorem combine_body_blank (fits : List (List Message)) (body : List Message) (tr : List Trailer)
+    (h : combine fits = .ok body tr) : body.map blankAcc = (bodyInputs fits).flatten.map blankAcc := by
+  unfold combine at h
+  simp only at h
+  unfold bodyInputs
+  cases hs : sortByCreation (fits.filter (!·.isEmpty)) with
+  | nil => simp [hs] at h
+  | cons f0 rest =>
+    simp only [hs] at h
+    split at h
+    · cases h
+    · split at h
+      · cases h
+      · rename_i tail htail
+        injection h with hb _
+        subst hb
+        have := combineBody_blank _ _ _ htail
+        simp only [List.map_append, this, List.flatten_cons, filterBody_eq]
+        congr 1
+        rw [flat_filter]
+
+theorem insertLeft_perm (f : List Message) : ∀ l : List (List Message), (insertLeft f l).Perm (f :: l)
+  | [] => List.Perm.refl _
+  | g :: gs => by
+    simp only [insertLeft]
+    split
+    · exact (List.Perm.cons g (insertLeft_perm f gs)).trans (List.Perm.swap f g gs)
+    · exact List.Perm.refl _
+
+theorem sortByCreation_perm : ∀ fs : List (List Message), (sortByCreation fs).Perm fs
+  | [] => List.Perm.refl _
+  | f :: fs => by
+    show (insertLeft f (sortByCreation fs)).Perm (f :: fs)
+    exact (insertLeft_perm f _).trans (List.Perm.cons f (sortByCreation_perm fs))
+
+def ByCreation (l : List (List Message)) : Prop := l.Pairwise fun a b => timeCreated a ≤ timeCreated b
+
+theorem insertLeft_sorted (f : List Message) : ∀ l : List (List Message), ByCreation l → ByCreation (insertLeft f l)
+  | [], _ => by simp [insertLeft, ByCreation]
+  | g :: gs, h => by
+    have hp := List.pairwise_cons.mp h
+    simp only [insertLeft]
+    split
+    · rename_i hlt
+      refine List.pairwise_cons.mpr ⟨?_, insertLeft_sorted f gs hp.2⟩
+      intro x hx
+      rcases List.mem_cons.mp ((insertLeft_perm f gs).subset hx) with rfl | hx'
+      · exact Nat.le_of_lt hlt
+      · exact hp.1 x hx'
+    · rename_i hge
+      refine List.pairwise_cons.mpr ⟨?_, h⟩
+      intro x hx
+      rcases List.mem_cons.mp hx with rfl | hx'
+      · omega
+      · have := hp.1 x hx'; omega
+
+theorem sortByCreation_sorted : ∀ fs : List (List Message), ByCreation (sortByCreation fs)
+  | [] => List.Pairwise.nil
+  | f :: fs => insertLeft_sorted f _ (sortByCreation_sorted fs)
+
+/-- stability: files with the same creation time keep their order -/
+theorem insertLeft_filter (k : Nat) (f : List Message) : ∀ l : List (List Message), ByCreation l →
+    (insertLeft f l).filter (fun x => timeCreated x == k) = (f :: l).filter (fun x => timeCreated x == k)
+  | [], _ => rfl
+  | g :: gs, h => by
+    have hp := List.pairwise_cons.mp h
+    simp only [insertLeft]
+    split
+    · rename_i hlt
+      -- g has a smaller key than f: g stays in front; if key g = k then key f ≠ k
+      simp only [List.filter_cons, insertLeft_filter k f gs hp.2]
+      by_cases hg : (timeCreated g == k) = true
+      · have hf : (timeCreated f == k) = false := by
+          have : timeCreated g = k := by simpa using hg
+          simp only [beq_eq_false_iff_ne]; omega
+        simp [hg, hf]
+      · simp [hg]
+    · rfl
+
+theorem sortByCreation_stable (k : Nat) : ∀ fs : List (List Message),
+    (sortByCreation fs).filter (fun x => timeCreated x == k) = fs.filter (fun x => timeCreated x == k)
+  | [] => rfl
+  | f :: fs => by
+    show (insertLeft f (sortByCreation fs)).filter _ = _
+    rw [insertLeft_filter k f _ (sortByCreation_sorted fs)]
+    simp only [List.filter_cons, sortByCreation_stable k fs]
+
+end Fit.Activity
